@@ -31,7 +31,7 @@ const (
 func init() {
 	core.Register(&core.Prop{
 		ID: "C07",
-		Rule: "case = one seed encoding (valid WKB in either/mixed byte order, or a GeoJSON document) together with its mutation family: truncation at every offset, single-bit flips, every count field inflated to {n+1,2n,2^16,2^24,2^28,2^31,2^32-1}, unknown/EWKB type codes, bad byte-order flags, collections nested up to the 64 KiB limit, random byte strings, malformed hex, grammar-generated JSON with arbitrarily shaped coordinates members, hand-built Geometry values; every decoder call runs under recover() with heap-allocation accounting (runtime.ReadMemStats TotalAlloc deltas, single goroutine) in a child process with RLIMIT_AS=4GiB; " +
+		Rule: "case = one seed encoding (valid WKB in either/mixed byte order, or a GeoJSON document) together with its mutation family: truncation at every offset, single-bit flips, every count field inflated to {n+1,2n,2^16,2^24,2^28,2^31,2^32-1}, unknown/EWKB type codes, bad byte-order flags, marker floating-point patterns (canonical NaNs, infinities, -0, MaxFloat64) written into one or both ordinates of a vertex, collections nested up to the 64 KiB limit, random byte strings, malformed hex, grammar-generated JSON with arbitrarily shaped coordinates members, hand-built Geometry values; every decoder call runs under recover() with heap-allocation accounting (runtime.ReadMemStats TotalAlloc deltas, single goroutine) in a child process with RLIMIT_AS=4GiB; " +
 			"an evaluation is one decoder call; non-trivial = mutated/hostile input (distinct by input hash) on which the decoder returned an error or a geometry that survived the re-encode fixpoint",
 		Assumptions: []string{"'memory bounded by a constant multiple of the input' is restated as ΔTotalAlloc <= K*len+C with K=64 (WKB, hex), 256 (GeoJSON), C=64KiB", "inputs up to 64 KiB", "hand-built Geometry values are only required not to panic"},
 		Phases: []core.Phase{{Name: "hostile", NumCases: func(t string) int {
@@ -341,6 +341,35 @@ func (e *env) wkbFamily(r *gen.R) {
 	_, fields, _, err := refcodec.ParseWKB(seed)
 	if err != nil {
 		panic("reference parser rejects its own serializer: " + err.Error())
+	}
+	// special floating-point patterns written into both ordinates (or one) of a vertex: the
+	// values other software uses as markers (IEEE default quiet NaN = PostGIS "POINT EMPTY",
+	// Go's NaN, the x86 default NaN, a signalling NaN, infinities, -0, MaxFloat64)
+	var coords []refcodec.Field
+	for _, f := range fields {
+		if f.Kind == refcodec.FCoord {
+			coords = append(coords, f)
+		}
+	}
+	for k := 0; k < 8 && len(coords) >= 2; k++ {
+		i := 2 * r.Intn(len(coords)/2)
+		pat := []uint64{0x7ff8000000000000, 0x7ff8000000000001, 0xfff8000000000000, 0x7ff0000000000001, 0x7ff0000000000000, 0xfff0000000000000, 0x8000000000000000, 0x7fefffffffffffff}[r.Intn(8)]
+		m := append([]byte{}, seed...)
+		which := r.Intn(4) // 0,1: both ordinates; 2: x only; 3: y only
+		for j := 0; j < 2; j++ {
+			if which == 2+(1-j) {
+				continue
+			}
+			f := coords[i+j]
+			for b := 0; b < 8; b++ {
+				sh := uint(8 * b)
+				if !f.LE {
+					sh = uint(8 * (7 - b))
+				}
+				m[f.Off+b] = byte(pat >> sh)
+			}
+		}
+		e.tryWKB("special_float", m)
 	}
 	for _, f := range fields {
 		switch f.Kind {
